@@ -1,15 +1,56 @@
 /-
-C03 — kernel-checked witnesses.
+C03 — kernel-checked witnesses (`by decide`): the repaired case-label truncation, the
+boundaries of the fragment `C03_preserve_partial` covers, and the recorded latitude.
 -/
 import ChibiVerif.Model.Stmt
+import ChibiVerif.Lemmas.StmtMachine
 
 namespace ChibiVerif.Findings.C03
 open ChibiVerif.Ctl ChibiVerif.Spec.Ctl
 
-/-- repaired defect (fix 0d889cd): `case 0x100000001L` is compared through a register, not
-    truncated to `int` -/
-theorem C03_fixed_case_64 :
+/-- repaired defect (`fix:` 0d889cd, "case labels keep 64 bits"): `case 0x100000001L` of a 64-bit
+    switch is compared through a register, not truncated to `int` … -/
+theorem C03_fixed_case_64_ladder :
     ladderEnt true ⟨7, 0x100000001#64, 0x100000001#64⟩ =
       [.movImm 0x100000001#64 .di, .cmpReg .di .ax, .je (.u 7)] := by decide
+
+/-- … so `switch (0x100000001L) { case 0x100000001L: m(1); break; default: m(2); }` executes
+    `m(1)` on the model's machine (it went to `default` on the pinned tree). -/
+theorem C03_fixed_case_64_runs :
+    (match parseFn 0 (.switch_ true false 0 (.block (.seq (.case_ 0x100000001#64 0x100000001#64 (.marker 1))
+        (.seq .break_ (.seq (.default_ (.marker 2)) .skip))))) with
+     | .ok (st, _) => (runM (fun _ => 0x100000001#64) (genFn st 1) 40 (MState.init ⟨0, []⟩)).σ.tr
+     | .error _ => []) = [.inp 0, .m 1] := by decide
+
+/-- a range whose bounds do not fit imm32 goes through %rdx for the subtraction and the width -/
+theorem C03_range_register_path :
+    ladderEnt true ⟨3, 0x100000000#64, 0x300000000#64⟩ =
+      [.movAxDi true, .movImm 0x100000000#64 .dx, .subDxDi, .movImm 0x200000000#64 .dx, .cmpReg .dx .di, .jbe (.u 3)] := by
+  decide
+
+/-- boundary of the fragment: Duff's device (a `case` label inside a `do` inside the switch body)
+    is not `structured`, and `Spec.exec` answers `unsupported` for it … -/
+def duff : SStmt :=
+  .switch_ false false 1 (.block (.seq (.case_ 0 0 (.doWhile (.block (.seq (.marker 10) (.seq (.case_ 1 1 (.marker 11)) .skip))) 2)) .skip))
+
+theorem C03_duff_outside_fragment :
+    structured duff = false ∧ exec (fun _ => 1) 30 duff ⟨0, []⟩ = .unsupported := by decide
+
+/-- … while the model's code for it, run on the model's machine, enters the loop body at
+    `case 1` and then iterates the whole body (what gcc-compiled code does, checked by the
+    correspondence run on every check). -/
+theorem C03_duff_model_runs :
+    (match parseFn 0 duff with
+     | .ok (st, _) => (runM (fun i => [1, 1, 0].getD i 0) (genFn st 1) 60 (MState.init ⟨0, []⟩)).σ.tr
+     | .error _ => []) = [.inp 1, .m 11, .c 2, .m 10, .m 11, .c 2] := by decide
+
+/-- recorded latitude (not a finding; gcc only warns "empty range specified"): a range that is
+    non-empty as `long` but empty after conversion to the controlling type — `case -1 ... 5` of
+    an `unsigned` switch — is accepted by `parseStmt` (bounds compared as `long`), violates the
+    hypothesis of `C03_switch_select`, and the ladder's wrapped test accepts 0xffffffff and 3. -/
+theorem C03_latitude_range_empty_after_conversion :
+    decide (toT false true (-1 : Val) ≤ toT false true (5 : Val)) = false ∧
+    entMatches false ⟨1, -1, 5⟩ 0xffffffff#64 = true ∧ entMatches false ⟨1, -1, 5⟩ 3#64 = true ∧
+    caseMatches false true (-1) 5 3#64 = false := by decide
 
 end ChibiVerif.Findings.C03
